@@ -92,7 +92,19 @@ func checkC17(c *an.Ctx) {
 				return
 			}
 			fresh, _ := an.FreshBase(fa.X)
-			c.Check(fn == reset || fresh, "C17.1", an.Short(fn)+":write(Loader.imports)", st.Pos(), "the visited set is replaced only by reset / the constructor", "the visited set is replaced in "+an.Short(fn)+": marks are lost in the middle of a load")
+			atStart := false
+			if fn == load {
+				// reset written inline: it must come before anything is loaded
+				atStart = true
+				for _, name := range []string{"(*internal/config.Loader).load", "(*internal/config.Loader).LoadGlobalConfig"} {
+					for _, ci := range an.CallsIn(load, name) {
+						if !an.Dominates(st, ci) {
+							atStart = false
+						}
+					}
+				}
+			}
+			c.Check(fn == reset || fresh || atStart, "C17.1", an.Short(fn)+":write(Loader.imports)", st.Pos(), "the visited set is replaced only at the start of Load / by the constructor", "the visited set is replaced in "+an.Short(fn)+": marks are lost in the middle of a load")
 		})
 	}
 	if reset != nil {
